@@ -5,7 +5,7 @@ rows=[]
 for f in sorted(glob.glob('/verif/evidence/C*.json')):
     e=json.load(open(f)); c=e['coverage']
     q=c['queries']; fd=c.get('finite_domain_procedure',{})
-    rows.append(f"| {e['property_id']} | {e['tier']} | {c['units']} | {c['states']} | {q['total']} ({q['sat']} sat / {q['unsat']} unsat / {q['unknown']} unknown) | {fd.get('path_conditions_decided','-')} | {c['solver_s']:.0f} s | {c['traces_validated_against_impl']} | {len(c['units_undecided'])} | {e['wall_s']:.0f} s |")
+    rows.append(f"| {e['property_id']} | {e['tier']} | {c['units']} | {c['states']} | {q['total']} ({q['sat']} sat / {q['unsat']} unsat / {q['unknown']} unknown) | {fd.get('path_conditions_decided','-')} | {c['solver_s']:.0f} s | {c['traces_validated_against_impl']} | {len(c.get('units_undecided') or [])} | {e['wall_s']:.0f} s |")
 hdr='| id | tier | units | feasible path classes decided | z3 queries | path conditions decided by the finite-domain procedure | z3 time (all workers) | paths replayed natively | undecided units | wall (16 cores) |\n|---|---|---|---|---|---|---|---|---|---|'
 table=hdr+'\n'+'\n'.join(rows)
 p='/verif/DESIGN.md'
